@@ -67,10 +67,15 @@ func sanitizeSelectionSet(ctx *PlanningContext, selectionSet ast.SelectionSet, i
 				pushDirectivesDown(childSelectionSet, s.Directives)
 			}
 
-			var addedFields []string
-			childSelectionSet, addedFields = addScrubFieldsToSelectionSet(ctx, childSelectionSet, s.TypeCondition)
-			for _, f := range addedFields {
-				scrubFields.Set(insertionPoint, s.TypeCondition, f)
+			// helper fields are only needed per fragment below an interface or union; a fragment
+			// on an object is unfolded into its parent, which gets its own helpers (added there
+			// only if the client did not select them itself)
+			if s.ObjectDefinition.Kind == ast.Interface || s.ObjectDefinition.Kind == ast.Union {
+				var addedFields []string
+				childSelectionSet, addedFields = addScrubFieldsToSelectionSet(ctx, childSelectionSet, s.TypeCondition)
+				for _, f := range addedFields {
+					scrubFields.Set(insertionPoint, s.TypeCondition, f)
+				}
 			}
 
 			switch s.ObjectDefinition.Kind {
